@@ -6,9 +6,7 @@ Open Scope Z_scope.
 
 Section Sim.
 Variables E B : Z.
-Hypothesis HE : 1 <= E.
-Hypothesis HB : 1 <= B.
-Hypothesis HEB : E * B <= 2^60.
+Hypothesis HD : inD E B.
 
 Notation kstep := (kstep E B).
 Notation bstep := (bstep E B).
@@ -28,6 +26,7 @@ Definition rel (s : kstate) (b : bucket) : Prop :=
 Lemma refill_eff s b now : rel s b -> last b <= now -> refill E B b now = now + T - eff s now.
 Proof.
   intros [HI Hl] Hle. unfold refill, KeyStep.eff, kvisible.
+  pose proof (HE E B HD) as HE'. pose proof (T_nonneg E B HD) as HT0.
   pose proof (T_plus_E E B) as HT.
   destruct s as [[tat ex]|]; cbn [KeyLemmas.Inv] in HI.
   - destruct HI as [H1 H2]. destruct (Z.ltb_spec now ex); lia.
@@ -39,15 +38,23 @@ Lemma sim s b q now : rel s b -> last b <= now -> time_ok now -> 0 <= q ->
   rel (fst (kstep s q now)) (fst (bstep b q now)).
 Proof.
   intros Hrel Hle Ht Hq. pose proof Hrel as [HI Hl].
+  pose proof (HE E B HD) as HE'. pose proof (HB E B HD) as HB'. pose proof (T_nonneg E B HD) as HT0.
   pose proof (refill_eff s b now Hrel Hle) as Hre.
   pose proof (T_plus_E E B) as HT. pose proof (eff_ge E s now) as Hge.
   unfold Bucket.bstep. rewrite Hre.
   destruct (Z_le_gt_dec (eff s now + E * q - T) now) as [Hok|Hno].
-  - rewrite (kstep_admit E B HE HB HEB s (last b) q now HI Hle Ht Hq Hok).
+  - rewrite (kstep_admit E B HD s (last b) q now HI Hle Ht Hq Hok).
     destruct (Z.leb_spec (E * q) (now + T - eff s now)); [|lia].
     cbn [fst snd allowed]. split; [reflexivity|].
-    unfold rel. cbn [last lvl KeyLemmas.Inv]. pose proof (retention_bounds E B HE HB). lia.
-  - rewrite (kstep_deny E B HE HB HEB s (last b) q now HI Hle Ht Hq ltac:(lia)).
+    destruct (Z.ltb_spec 0 q) as [Hqp|Hq0].
+    + unfold rel. cbn [last lvl KeyLemmas.Inv]. pose proof (retention_bounds E B HD). lia.
+    + (* zero quantity: nothing is written, the bucket only refills *)
+      assert (q = 0) by lia. subst q. rewrite Z.mul_0_r, Z.sub_0_r.
+      unfold rel. cbn [last lvl]. split; [eapply Inv_mono; eauto|].
+      destruct s as [[tat ex]|]; cbn [KeyLemmas.Inv] in HI.
+      * unfold KeyStep.eff, kvisible. destruct HI. destruct (Z.ltb_spec now ex); lia.
+      * unfold KeyStep.eff, kvisible. lia.
+  - rewrite (kstep_deny E B HD s (last b) q now HI Hle Ht Hq ltac:(lia)).
     destruct (Z.leb_spec (E * q) (now + T - eff s now)); [lia|].
     cbn [fst snd allowed]. split; [reflexivity|].
     unfold rel. cbn [last lvl]. split; [eapply Inv_mono; eauto|].
